@@ -1,6 +1,7 @@
 package ops
 
 import (
+	"bufio"
 	"bytes"
 	"context"
 	"errors"
@@ -324,6 +325,20 @@ func (env *Env) run(c *Case) *Result {
 	case 2:
 		rdCloser = &faultReaderCloser{faultReader: rd}
 		rdI = rdCloser
+	case 6:
+		// an EMPTY regular file opened write-only: every Read fails with EBADF although nothing remains to be read
+		if f, err := os.CreateTemp(env.Scratch, "wronly"); err == nil {
+			name := f.Name()
+			f.Close()
+			if wf, err := os.OpenFile(name, os.O_WRONLY, 0); err == nil {
+				defer wf.Close()
+				rdI = wf
+			}
+			os.Remove(name)
+		}
+	case 5:
+		// the (fault-injecting) reader behind a *bufio.Reader: a reader that "is already buffered"
+		rdI = bufio.NewReaderSize(rd, 512)
 	case 3:
 		// the document as a *bytes.Reader (no faults, no accounting): a reader whose size the library could ask for
 		rdI = bytes.NewReader(c.Doc)
@@ -474,7 +489,7 @@ func (env *Env) run(c *Case) *Result {
 	res.Err = ErrInfo{Nil: err == nil}
 	if err != nil {
 		res.Err.Text = err.Error()
-		res.Err.IsReader = errors.Is(err, ErrReader)
+		res.Err.IsReader = errors.Is(err, ErrReader) || (c.Faults.IOKind == 6 && errors.Is(err, syscall.EBADF))
 		res.Err.IsWriter = errors.Is(err, ErrWriter)
 		res.Err.IsCallback = err == cbErr
 		if ce := ctx.Err(); ce != nil {
@@ -511,7 +526,7 @@ func (env *Env) run(c *Case) *Result {
 		res.CloseDuringRead = rdCloser.badClose.Load()
 	}
 	vmu.Lock()
-	if len(keptCb) == len(visits) && len(keptCb) > 0 && !c.Opts.Massive {
+	if len(keptCb) == len(visits) && len(keptCb) > 0 && res.Hang == "" {
 		// what the callback saw must still be what the nodes say once the walk is over
 		for i, wn := range keptCb {
 			visits[i] = Visit{Name: wn.Name(), Branch: wn.Branch(), Row: wn.Row(), Level: wn.Level(), Path: wn.Path(), HasChild: wn.HasChild()}
